@@ -203,7 +203,8 @@ def hPad : Handler := handler fun args =>
     let xs ← xs.toInts?
     let l ← l.toNat?
     let r ← r.toNat?
-    pure (.list [SExp.ofInts (padReuse m xs l r), SExp.ofInts (padSpec m xs l r)])
+    pure (.list [(match padReuse m xs l r with | some v => .list [.sym "ok", SExp.ofInts v] | none => .list [.sym "raised"]),
+      SExp.ofInts (padSpec m xs l r)])
   | _ => none
 
 def hPadChunks : Handler := handler fun args =>
